@@ -324,6 +324,117 @@ func c15(c *hx.Ctx) {
 		c.Case(hx.App("HParse", hx.Str(s), o), map[string]any{"kind": "parse", "text": s, "hex": hx.Hex([]byte(s))})
 	}
 
+	// every operation on hashes obtained by DECODING equivalent, non-canonical encodings
+	nDec := c.N * 3 / 10
+	for i := 0; i < nDec; i++ {
+		ty := randHashType(c)
+		if c.Rng.Intn(3) != 0 {
+			ty = bhash.HashType(1 + c.Rng.Intn(3))
+		}
+		data := pickData()
+		var dg []byte
+		var sd string
+		ref, known := refSum(ty, data)
+		switch k := c.Rng.Intn(6); {
+		case k <= 2 && known:
+			dg, sd = ref, hx.App("DSum", hx.Z(int64(ty)), hx.Bytes(data), hx.Nat(len(ref)))
+		case k == 3 && known:
+			od := pickData()
+			dg, _ = refSum(ty, od)
+			sd = hx.App("DSum", hx.Z(int64(ty)), hx.Bytes(od), hx.Nat(len(dg)))
+		case k == 4:
+			dg = c.RandBytes([]int{0, 20, 32, 31}[c.Rng.Intn(4)])
+			sd = hx.App("DRaw", hx.Bytes(dg))
+		default:
+			dg = c.RandBytes(ty.GetHashLen())
+			sd = hx.App("DRaw", hx.Bytes(dg))
+		}
+		enc, class := extrasProto(c, uint64(int64(ty)), dg)
+		c.Class("decoded-" + class)
+		desc := map[string]any{"kind": "decoded", "class": class, "type": int32(ty), "digest": hx.Hex(dg), "encoding": hx.Hex(enc), "data": hx.Hex(data)}
+		decode := func(e []byte) (*bhash.Hash, error) {
+			h := &bhash.Hash{}
+			if i%2 == 0 || len(e) == 0 {
+				return h, h.UnmarshalVT(e)
+			}
+			return h, h.ParseFromB58(b58.Encode(e))
+		}
+		h, derr := decode(enc)
+		if derr != nil || h.GetHashType() != ty || !bytes.Equal(h.GetHash(), dg) {
+			c.Failf("decoded-hash-differs", desc, "decoding an equivalent encoding gives (%d, %x), %v", int32(h.GetHashType()), h.GetHash(), derr)
+		}
+		// VerifyData
+		var got []byte
+		var err error
+		var p bool
+		o := guarded(c, "VerifyData", desc, [][]byte{enc, data}, func() string {
+			p, _ = hx.Catch(func() { got, err = h.VerifyData(data) })
+			switch {
+			case derr != nil:
+				return oErr(20)
+			case p:
+				return oPanic
+			case errors.Is(err, bhash.ErrHashMismatch):
+				return oErr(12)
+			case err != nil:
+				return oErr(10)
+			}
+			return oOk(hx.Nat(len(got)))
+		})
+		c.Case(hx.App("HVerifyDec", hx.Bytes(enc), hx.Bytes(dg), sd, hx.Bytes(data), o), desc)
+		if p {
+			c.Failf("verifydata-panic", desc, "VerifyData panicked on a decoded hash")
+			continue
+		}
+		if derr == nil {
+			want := known && bytes.Equal(ref, dg)
+			if (err == nil) != want {
+				c.Failf("verify-not-exact", desc, "decoded hash: VerifyData ok=%v but digest-equality under a known algorithm=%v", err == nil, want)
+			}
+			if err == nil {
+				c.Nontrivial("vd" + hx.Hex(enc) + hx.Hex(data))
+			}
+			// Validate: as for the freshly constructed hash
+			fresh := bhash.NewHash(ty, dg)
+			verr, ferr := h.Validate(), fresh.Validate()
+			vo := oOk("tt")
+			if verr != nil {
+				vo = oErr(0)
+			}
+			c.Case(hx.App("HValidateDec", hx.Bytes(enc), vo), desc)
+			if (verr == nil) != (ferr == nil) {
+				c.Failf("validate-decoded-differs", desc, "Validate of the decoded hash: %v, of NewHash(type, digest): %v", verr, ferr)
+			}
+			// CompareHash: against the fresh hash (both directions) and against another decoding
+			if !h.CompareHash(fresh) || !fresh.CompareHash(h) {
+				c.Failf("compare-not-equality", desc, "decoded hash and NewHash(type, digest) compare unequal")
+			}
+			enc2, _ := extrasProto(c, uint64(int64(ty)), dg)
+			if c.Rng.Intn(3) == 0 && len(dg) > 0 {
+				d2 := append([]byte{}, dg...)
+				d2[c.Rng.Intn(len(d2))] ^= 1
+				enc2 = cat(pbVarint(1, uint64(uint32(ty))), pbBytes(2, d2))
+			}
+			h2, derr2 := decode(enc2)
+			co := oErr(20)
+			if derr2 == nil {
+				eq := h.CompareHash(h2)
+				co = oOk(hx.Bool(eq))
+				want := h.GetHashType() == h2.GetHashType() && bytes.Equal(h.GetHash(), h2.GetHash())
+				if eq != want {
+					c.Failf("compare-not-equality", desc, "two decoded hashes: CompareHash=%v, type+digest equality=%v (second encoding %x)", eq, want, enc2)
+				}
+			}
+			c.Case(hx.App("HCompareDec", hx.Bytes(enc), hx.Bytes(enc2), co), desc)
+			// re-marshal and decode again: still the same hash
+			h3 := &bhash.Hash{}
+			if e3 := h3.UnmarshalVT(h.MarshalDigest()); e3 != nil || h3.GetHashType() != ty || !bytes.Equal(h3.GetHash(), dg) {
+				c.Failf("binary-roundtrip", desc, "re-marshalling a decoded hash changes it: (%d, %x), %v", int32(h3.GetHashType()), h3.GetHash(), e3)
+			}
+			c.Eval()
+		}
+	}
+
 	nCmp := c.N - nVerify - nValidate - nEnc - nMal
 	for i := 0; i < nCmp; i++ {
 		mk := func() *bhash.Hash {
